@@ -86,6 +86,8 @@ def _worker(check_mod, case, mutation, seed, conn):
             ex.run(lambda ctx: fn(ctx, **case.params))
         except core.Inconclusive as e:
             out["error"] = f"{type(e).__name__}: {e}"
+        if ex.errors and not out["error"]:
+            out["error"] = f"unexpected exception on {len(ex.errors)} path(s): {ex.errors[0]}"
         out["stats"] = ex.stats.as_dict()
         out["samples"] = ex.stats.path_samples
         seen = {}
